@@ -419,9 +419,14 @@ class FingerprintDatabase(object):
                 dtype = dtype_from_fptype(fp_type)
         else:
             dtype = dtype_from_fptype(fp_type)
+        fp_names = list(fp_names)
+        if len(fp_names) != array.shape[0]:
+            raise ValueError(
+                "fp_names must have one name per row of array."
+            )
         db = cls(fp_type=fp_type, level=level, name=name)
         db.array = csr_matrix(array, dtype=dtype)
-        db.fp_names = list(fp_names)
+        db.fp_names = fp_names
         db.update_names_map()
         db.update_props(props)
         return db
